@@ -317,6 +317,29 @@ static void lattice_entry(const struct ent *e)
 	}
 }
 
+/* the documented maximum XTS data-unit length (2^24) is inside the domain: must be accepted by the isal_ entry and agree with its twin */
+static vk_slot big_in, big_out, big_out2; static int big_ready;
+static void xts_maxlen_case(const struct ent *e)
+{
+	if (!big_ready) { vk_slot_init(&big_in, "xts_in_16M", (1u << 24) + 4096, 1); vk_slot_init(&big_out, "xts_out_16M", (1u << 24) + 4096, 0); vk_slot_init(&big_out2, "xts_out2_16M", (1u << 24) + 4096, 0); vk_fill(big_in.rw, 1u << 24, 0xb16); big_ready = 1; }
+	build_spec(e);
+	for (uint64_t len = (1u << 24) - 1; len <= (1u << 24); len++) {
+		uint64_t a[12]; for (int i = 0; i < S.n; i++) a[i] = S.valid[i];
+		a[3] = len; a[4] = (uint64_t)(uintptr_t)(big_in.ro + big_in.size - len); a[5] = (uint64_t)(uintptr_t)(big_out.rw + big_out.size - len);
+		int faulted; uint64_t r = do_call(e->fn, e->name, a, S.n, &faulted);
+		vk_stat("lattice_cases", 1); vk_stat("must_succeed_cases", 1);
+		char key[160];
+		if (faulted) { snprintf(key, sizeof key, "%s:fault:valid", e->name); vk_violation("C16", key, NULL, "%s faulted for the valid length %llu", e->name, (unsigned long long)len); continue; }
+		if ((int)r != 0) { snprintf(key, sizeof key, "%s:refused_valid", e->name); vk_violation("C16", key, NULL, "%s returned %d for len=%llu, which is inside the documented domain [16, 2^24]", e->name, (int)r, (unsigned long long)len); continue; }
+		if (e->lfn) {
+			a[5] = (uint64_t)(uintptr_t)(big_out2.rw + big_out2.size - len);
+			do_call(e->lfn, e->legacy, a, S.n, &faulted);
+			vk_stat("twin_pairs", 1);
+			if (!faulted && memcmp(big_out.rw + big_out.size - len, big_out2.rw + big_out2.size - len, len)) { snprintf(key, sizeof key, "%s:twin_mismatch:maxlen", e->name); vk_violation("C16", key, NULL, "%s and %s differ for len=%llu", e->name, e->legacy, (unsigned long long)len); }
+		}
+	}
+}
+
 /* ================= legacy twins (C16) ================= */
 static void twin_hash(const struct ent *esub)
 {
@@ -582,7 +605,9 @@ static void latch(void)
 	slot_sha256_init = vk_sym("_sha256_ctx_mgr_init_dispatched");
 	latch_mode_on = 1;
 	long item = 0;
-	for (int nthr = 1; nthr <= 4; nthr++) for (int oc = 0; oc < 3; oc++) for (int mix = 0; mix < 2; mix++) {
+	const char *lv; int maxthr = 4;
+	if (vk_opt("latch-max-threads", &lv)) maxthr = atoi(lv);
+	for (int nthr = 1; nthr <= maxthr; nthr++) for (int oc = 0; oc < 3; oc++) for (int mix = 0; mix < 2; mix++) {
 		if (nthr == 1 && mix) continue;
 		if (item++ % vk_nshards != vk_shard) continue;
 		struct vs_config c; memset(&c, 0, sizeof c);
@@ -604,7 +629,7 @@ static void latch(void)
 		if (st.nondeterministic) vk_violation("C17", "harness:nondeterministic_replay", NULL, "a failing schedule did not fail again when replayed (%s)", what);
 		vk_note("latch %s: %llu schedules, %llu states, %llu transitions%s", what, (unsigned long long)st.executions, (unsigned long long)st.states, (unsigned long long)st.transitions, c.preempt_bound >= 0 ? " (preemption-bounded)" : " (unbounded preemptions, exhaustive)");
 		vk_distinct("configs", vk_hash(what, strlen(what), 1));
-		if (v) { char key[160]; snprintf(key, sizeof key, "latch:%s", strstr(msg, "times instead") ? "not_exactly_once" : strstr(msg, "before the self-tests") ? "early_return" : strstr(msg, "verdict") ? "verdict_mismatch" : strstr(msg, "progress") ? "deadlock" : "other"); emit_sched_violation("C17", key, msg, sched, sl, what); }
+		if (v) { char key[160]; snprintf(key, sizeof key, "latch:%s", strstr(msg, "times instead") ? "not_exactly_once" : strstr(msg, "before the self-tests") ? "early_return" : strstr(msg, "verdict") ? "verdict_mismatch" : strstr(msg, "progress") ? "deadlock" : "other"); emit_sched_violation(!strcmp(prop, "C13") ? "C13" : "C17", key, msg, sched, sl, what); }
 	}
 	vk_faults_install();
 	latch_mode_on = 0;
@@ -742,7 +767,7 @@ int main(int argc, char **argv)
 		}
 	}
 	if (!strcmp(mode, "lattice")) {
-		for (int i = 0; i < NE; i++) { if (i % vk_nshards != vk_shard) continue; if (vk_only && !strstr(E[i].name, vk_only)) continue; lattice_entry(&E[i]); }
+		for (int i = 0; i < NE; i++) { if (i % vk_nshards != vk_shard) continue; if (vk_only && !strstr(E[i].name, vk_only)) continue; lattice_entry(&E[i]); if (E[i].cls == C_XTS) xts_maxlen_case(&E[i]); }
 		if (vk_shard == 0) twins();
 		vk_sample("isal_aes_gcm_enc_128: null_mask=0x44 (in, aad NULL) tag_len=15 -> must fail, remaining 5 pointers aimed at PROT_NONE pages; isal_sha256_ctx_mgr_submit flags=0x10 -> must fail; isal_aes_xts_dec_256 len=16777217 -> must fail");
 	}
